@@ -35,6 +35,17 @@ ResInh(fam, i, name, j) ==
 
 Hidden(mods) == mods \cap {"static", "private", "protected"} # {}
 
+\* '::name()' written in program i: the definition of name that program i inherits (its own definition of the name, if
+\* any, is the one being bypassed); it runs with the variables of the program that defines it
+\* The compiler takes the FIRST inherit statement of program i (in the order written) under which the name is defined
+\* (arrange_call_inherited; below that inherit the usual rule applies: own definition, then its inherits last to first).
+\* Modifiers play no part: '::' is a compile-time link.  (The manual only shows the qualified form 'prog::name'.)
+RECURSIVE SuperFrom(_, _, _, _)
+SuperFrom(fam, i, name, j) ==
+  IF j > Len(fam[i].inh) THEN None
+  ELSE LET r == Res(fam, fam[i].inh[j].p, name) IN IF r.found THEN r ELSE SuperFrom(fam, i, name, j + 1)
+SuperRes(fam, i, name) == SuperFrom(fam, i, name, 1)
+
 \* expected outcome of a call on an object whose program is the last of the family
 Outcome(fam, origin, name) ==
   LET r == Res(fam, Len(fam), name) IN
@@ -49,6 +60,10 @@ Init == family = <<>> /\ pending = [on |-> FALSE, want |-> 0] /\ ran = 0
 Call(origin, name) == /\ ~pending.on
                       /\ pending' = [on |-> TRUE, want |-> Outcome(family, origin, name)]
                       /\ ran' = 0 /\ UNCHANGED family
+\* a function of program `from` executes ::name()
+Super(from, name) == /\ ~pending.on /\ from \in 1 .. Len(family)
+                     /\ pending' = [on |-> TRUE, want |-> LET r == SuperRes(family, from, name) IN IF r.found THEN r.prog ELSE 0]
+                     /\ ran' = 0 /\ UNCHANGED family
 \* the function of program p started to run, seeing the variable of program vp
 Ran(p, vp) == /\ pending.on /\ ran = 0 /\ p = pending.want /\ vp = p
               /\ ran' = p /\ UNCHANGED <<family, pending>>
